@@ -1621,6 +1621,9 @@ func Exec(run *Run, ar *arena.Arena, va *arena.Vars, g *Globals, sites *SiteTabl
 			}
 		}
 		crand.Reader = x.Dev
+		if run.Entropy.ByteReader && run.Entropy.Playback == nil {
+			crand.Reader = entropy.ByteDevice{Device: x.Dev}
+		}
 	}
 	savedReader := crand.Reader
 	defer func() { crand.Reader = savedReader }()
